@@ -573,3 +573,32 @@ _ADDENDA = {
 }
 for _pid, _txt in _ADDENDA.items():
     PROPERTIES[_pid]["level_text"] = PROPERTIES[_pid]["level_text"] + "  " + _txt
+
+
+# --------------------------------------------------------------------------
+# rounds 9-13 of seeded changes (DESIGN A.8): scenario families added to each check
+# --------------------------------------------------------------------------
+_ADDENDA2 = {
+    "C01": "Rounds 9-13: references of 258..1030 atoms, pairs 1000..9000 nm from the origin, scale factor exactly 0 (C02-C04), atoms exactly at 0.0 / -0.0.",
+    "C02": "Rounds 9-13: scale factor 0, reference atoms exactly on the origin (at construction and after the motion), translations up to 9000 nm with 1e-8 nm absolute for well-conditioned anchors, the rigid-motion clause also against the molecule returned earlier and still held, a second map (new or a rescaled shallow copy) on the same molecule objects.",
+    "C03": "Rounds 9-13: sibling maps and rescaled shallow copies of the map, far-from-origin pairs, scale factor 0.",
+    "C04": "Rounds 9-13: residue numbers above 99999, in-place arithmetic on position arrays of arguments / results / construction molecules, sibling maps, references of several hundred atoms.",
+    "C05": "Rounds 9-13: end molecules of another moleculetype name (attribute route), box edges of three digits with five decimals, the input renamed away and replaced under its name after loading, the output named by a bare file name.",
+    "C06": "Rounds 9-13: write_comparative_gro between alignment and checks, re-assignment of the mobile molecule with another acyclic bond graph, a terminal-like standard output in the monitored execution.",
+    "C07": "Rounds 9-13: the one-atom tree, column-major coordinate arrays, other length units (x1e-4, x1e-3, x1e3), floating-point errors raised and warnings as errors for a fifth of the batches.",
+    "C08": "Rounds 9-13: sibling calculators sharing a restraint list on smaller / larger fixed sets, refused evaluations before and between valid ones, other length units, floating-point errors raised.",
+    "C09": "Rounds 9-13: mobile molecules of 65..140 atoms, every single-atom proposal checked against the bond table, a terminal-like standard output, a worse proposal accepted without any random draw is a violation; the harness' own iteration cap (200 000) ends observation without a verdict.",
+    "C10": "Rounds 9-13: the same restraint list object handed to a second alignment, numpy integers as indices, a valid manager call after a rejected one (with an end molecule added in between), an end molecule of another name.",
+    "C11": "Rounds 9-13: a second System on the same file kept alive, the path having held another system of the same size before, coordinates that fill their column.",
+    "C12": "Rounds 9-13: files of 100 KiB .. 2 MiB, values that fill their column, the file renamed away and replaced under its name after loading, a path through a linked directory (<link>/../file).",
+    "C13": "Rounds 9-13: sessions of 1500..30000 records, braces / percent / backslash in names, three-digit box edges with five decimals, a relative path with the working directory changed before close.",
+    "C14": "Rounds 9-13: sessions of 1020..8300 records with sampled crash points (every boundary around a power of two), a writer object dropped without close() -- also over an existing complete file of the same layout; a session that cannot complete is a C14 violation.",
+    "C15": "Rounds 9-13: a refused connectivity question (partial atom list) before the real one, the open handle's name given to another file before the topology is built from it, bracketed words inside comments.",
+    "C16": "Rounds 9-13: topologies of 70 KiB .. 2.2 MiB rendered from (n, seed), characters that only str.splitlines treats as line ends inside comments, the same object writing again after somebody else wrote the path, a comment-only first block of a repeated section.",
+    "C17": "Rounds 9-13: points exactly at the origin, small triangles far from the origin, floating-point errors raised and warnings as errors for a third of the batches.",
+    "C18": "Rounds 9-13: refused operations (wrong shapes) between valid ones, numpy integers as molecule indices.",
+    "C19": "Rounds 9-13: floating-point errors raised for a quarter of the runs.",
+    "C20": "Rounds 9-13: the output of an earlier run among the --auto candidates, a second run in the same process whose same relative file names denote other molecules, the input given as a symbolic link with the output defaulted.",
+}
+for _pid, _txt in _ADDENDA2.items():
+    PROPERTIES[_pid]["level_text"] = PROPERTIES[_pid]["level_text"] + "  " + _txt
